@@ -1,10 +1,11 @@
 import SJ.Proofs.TypedAgreeEnum
+import SJ.Proofs.TypedAgreeKeyInt
 /-!
 # The text leg of C16, assembled: every schema of the fragment `agreeFrag2`, every float-free non-`arbitrary_precision`
 # value outside the statement's exclusions
 
 Fragment: bool, the twelve integer targets, char, string, bytes, unit / unit struct, `Option`, newtype structs, `Vec`,
-tuples, maps (key kinds `keyFrag`), structs (both `deny_unknown_fields` settings), enums (unit / newtype / non-empty
+tuples, maps (every key kind), structs (both `deny_unknown_fields` settings), enums (unit / newtype / non-empty
 tuple / struct variants), `IgnoredAny`.
 -/
 set_option linter.unusedSectionVars false
@@ -13,10 +14,8 @@ set_option linter.unusedVariables false
 namespace SJ.Proofs.Typed
 open SJ SJ.Gen SJ.Model SJ.Model.Typed
 
-/-- key kinds covered -/
-def keyFrag : KeyKind → Bool
-  | .int _ => false
-  | _ => true
+/-- key kinds covered: all of them (string, the twelve integer widths, bool, char, unit-variant enums) -/
+def keyFrag : KeyKind → Bool := fun _ => true
 
 mutual
 /-- the schema fragment of `c16_text_agrees_partial` (the statement's exclusion "no zero-length tuple variant" is part
@@ -195,7 +194,7 @@ theorem keyAgree_frag {env : Env} (hflt : env.flt = false) (k : KeyKind) (hk : k
   | char => exact keyAgree_str hflt FromValue.visitCharStr
   | bool => exact keyAgree_bool hflt
   | unitEnum names => exact keyAgree_unitEnum hflt names
-  | int w => simp [keyFrag] at hk
+  | int w => exact keyAgree_int ext hext hflt w
 
 /-- **the text leg on printed values**, for an invariant `R` on (schema, value) pairs closed under the positions visited:
     for every schema of the fragment and every float-free value representable without `arbitrary_precision`, within the
